@@ -143,9 +143,31 @@ pub fn binary_times_of_day() -> Vec<i128> {
     dedup(v)
 }
 
+/// The same distances measured back from the next midnight (24:00 - x): where a narrowing cast
+/// of "time left in the day" / of a negative remainder gives out.
+pub fn mirrored_binary_times() -> Vec<i128> {
+    dedup(binary_times_of_day().into_iter().filter(|x| *x > 0).map(|x| US_PER_DAY - x).filter(|x| time_in_range(*x)).collect())
+}
+
+/// Binary-boundary times of day (both directions) on a few boundary and interior dates, before
+/// and after 1970.
+pub fn ts_binary_time_instants() -> Vec<i128> {
+    let c = cal();
+    let mut times = binary_times_of_day();
+    times.extend(mirrored_binary_times());
+    let mut v = vec![];
+    for d in [c.first as i128, c.first as i128 + 1, ymd(1582, 10, 15), ymd(1900, 3, 1), ymd(1950, 6, 15), -1, 0, 1, ymd(2000, 2, 29), ymd(2024, 12, 31), c.last as i128] {
+        for t in &times {
+            v.push(d * US_PER_DAY + t);
+        }
+    }
+    dedup(v)
+}
+
 pub fn time_pool(seed: u64, nrandom: usize) -> Vec<i128> {
     let mut v = time_edges();
     v.extend(binary_times_of_day());
+    v.extend(mirrored_binary_times());
     let mut r = SplitMix(seed ^ 0x71E);
     for _ in 0..nrandom {
         v.push(r.range_i128(0, US_PER_DAY - 1));
